@@ -100,11 +100,30 @@ def norm(msg):
 
 
 def diag_titles(text):
-    """sorted set of the diagnostics the type checker printed (box titles and 'Error at line' messages)"""
-    t = set(m.group(1).strip() for m in TITLE_RE.finditer(text))
+    """the diagnostics the type checker printed, in the order of printing, without repetitions: box titles
+    ('-- TYPE MISMATCH ----') and the messages of 'Error at line N, column M: ...' lines (identifiers stripped)"""
+    found = [(m.start(), m.group(1).strip()) for m in TITLE_RE.finditer(text)]
     for m in ERRLINE_RE.finditer(text):
-        t.add("E:" + norm(m.group(1))[:50])
-    return sorted(t)
+        msg = re.sub(r"\(.*$", "", norm(m.group(1))).strip()
+        found.append((m.start(), "E:" + msg[:60]))
+    out = []
+    for _, t in sorted(found):
+        if t not in out:
+            out.append(t)
+    return out
+
+
+def cc_class(r):
+    """class of the first error the C compiler reported: the -Werror flag when there is one, else the message with
+    identifiers, types and suggestions stripped"""
+    c = engines.cc_error_class(r)
+    if c.startswith("-Werror="):
+        return c
+    c = re.sub(r"\s*\[-W.*$", "", c)
+    c = re.sub(r"; did you mean.*$", "", c)
+    c = re.sub(r"\s*\(have .*$", "", c)
+    c = re.sub(r"\s*\(first use in this function\)", "", c)
+    return c.strip()
 
 
 def tset(titles):
@@ -139,7 +158,14 @@ class Outcome:
 
     def __init__(self, cls, stage, detail="", titles=(), text=""):
         self.cls, self.stage, self.detail, self.titles, self.text = cls, stage, detail, list(titles), text
-        self.key = "%s|%s|%s" % (stage, detail, tset(self.titles)) if cls == "stuck" else None
+        self.key = None
+        if cls == "stuck":
+            if self.titles:
+                # the checker diagnosed the program and accepted it all the same: the cause is the diagnostic that does not
+                # fail the check (the first one printed); stage and message of the later failure are consequences
+                self.key = "diagnosed-not-rejected|%s" % self.titles[0]
+            else:
+                self.key = "%s|%s|{}" % (stage, detail)
 
     def label(self):
         return "%s:%s%s" % (self.cls, self.stage, (":" + self.detail) if self.detail and self.cls != "ok" else "")
@@ -191,6 +217,7 @@ def classify_vm(flavor, d, main="main.nano"):
         for rx, cls, name in VM_TABLE:
             if rx.search(msg):
                 if cls == "stuck":
+                    msg = re.sub(r"(incompatible types) .*", r"\1", msg)
                     return Outcome("stuck", "vm-run", "%s: %s" % (name, norm(msg)), titles, err), r
                 return Outcome(cls, "vm-run", name, titles, err), r
         return Outcome("stuck", "vm-run", "unclassified: " + norm(msg), titles, err), r
@@ -215,13 +242,14 @@ def classify_native(flavor, d, vm_outcome=None, main="main.nano"):
         if "Type checking" not in done:
             return Outcome("rejected", "nanoc", "front-end-crash", titles, both), r, None
         last = done[-1] if done else "?"
-        return Outcome("stuck", "nanoc-crash", "after %s: %s" % (last, signame(r.sig) if r.sig else "abort"), titles, both + r2.text()[-400:]), r, None
+        phase = {"Type checking": "in the shadow-test evaluator", "Shadow tests": "in the transpiler"}.get(last, "after " + last)
+        return Outcome("stuck", "nanoc-crash", "%s: %s" % (phase, signame(r.sig) if r.sig else "abort"), titles, both + r2.text()[-400:]), r, None
     if not accepted:
         why = engines.classify_nanoc_failure(r)
         return Outcome("rejected", "nanoc", why, titles, both), r, None
     if not built:
         if "C compilation failed" in both:
-            return Outcome("stuck", "cc", engines.cc_error_class(r), titles, both), r, None
+            return Outcome("stuck", "cc", cc_class(r), titles, both), r, None
         if "Transpilation failed" in both:
             m = re.search(r"^(?:Error|error)[: ](.*)$", r.errtext(), re.M)
             return Outcome("stuck", "transpile", norm(m.group(1)) if m else "Transpilation failed", titles, both), r, None
@@ -1368,45 +1396,77 @@ def load_cells():
 # ======================================================================================================================
 
 def shrink(prog, same, budget=60):
-    """greedy removal of functions and statements of a mutable Program while same(Program) holds"""
+    """greedy removal of function bodies, functions, declarations and statements of a mutable Program while same(Program) holds"""
     best = prog
     calls = 0
 
     def attempt(c):
         nonlocal calls
+        if calls >= budget:
+            return False
         calls += 1
         try:
             return same(c)
         except Exception:
             return False
+
+    def trivial_body(f):
+        if f.ret == "void":
+            return []
+        if isinstance(f.ret, str) and f.ret in LIT:
+            return [["return", {"int": ["int", 0], "bool": ["bool", True], "string": ["str", ""], "float": ["float", 0.5]}[f.ret]]]
+        return None
     changed = True
     while changed and calls < budget:
         changed = False
+        # 1. whole bodies (main first: it calls everything)
         for i in range(len(best.main.funcs) - 1, -1, -1):
-            if best.main.funcs[i].name == "main" or calls >= budget:
+            f = best.main.funcs[i]
+            tb = trivial_body(f)
+            if tb is None or f.body == tb:
+                continue
+            c = copy.deepcopy(best)
+            c.main.funcs[i].body = tb
+            if attempt(c):
+                best, changed = c, True
+        # 2. functions, modules, declarations
+        for i in range(len(best.main.funcs) - 1, -1, -1):
+            if best.main.funcs[i].name == "main":
                 continue
             c = copy.deepcopy(best)
             del c.main.funcs[i]
             if attempt(c):
                 best, changed = c, True
-        if best.main.globals and calls < budget:
+        if best.modules or best.main.imports:
             c = copy.deepcopy(best)
-            c.main.globals = []
+            c.modules, c.main.imports = [], []
             if attempt(c):
                 best, changed = c, True
-        nlists = len(Sites(best).lists)
-        for li in range(nlists):
-            j = 0
-            while calls < budget:
-                lists = Sites(best).lists
-                if li >= len(lists) or j >= len(lists[li][0]):
-                    break
+        for attr in ("globals", "unions", "structs", "enums"):
+            for i in range(len(getattr(best.main, attr)) - 1, -1, -1):
                 c = copy.deepcopy(best)
-                del Sites(c).lists[li][0][j]
+                del getattr(c.main, attr)[i]
                 if attempt(c):
                     best, changed = c, True
-                else:
-                    j += 1
+        # 3. statements: halves, then singles
+        li = 0
+        while li < len(Sites(best).lists) and calls < budget:
+            size = len(Sites(best).lists[li][0])
+            chunk = max(1, size // 2)
+            while chunk >= 1 and calls < budget:
+                j = 0
+                while calls < budget:
+                    lists = Sites(best).lists
+                    if li >= len(lists) or j >= len(lists[li][0]):
+                        break
+                    c = copy.deepcopy(best)
+                    del Sites(c).lists[li][0][j:j + chunk]
+                    if attempt(c):
+                        best, changed = c, True
+                    else:
+                        j += chunk
+                chunk //= 2
+            li += 1
     return best
 
 
@@ -1437,8 +1497,6 @@ def run(ctx):
         stuck_keys.setdefault(oc.key, []).append(origin)
 
     with Scratch("c04") as sc:
-        # private copies of the tools: the flavor cache may be pruned by concurrent builds while a long run is going on
-        # (fastcc still reads the cache; only the three executables are copied)
         def both(d, files, native=True):
             engines.write_files(d, files)
             v, vr = classify_vm(plain, d)
@@ -1457,7 +1515,10 @@ def run(ctx):
         # ---- (2) cells: census programs and C04 witnesses ---------------------------------------------------------------
         cells = {}
         for name, text, exp in sweep.census_cells():
-            cells["census/" + name] = census.files(name)
+            # the cell's shadow block calls the cell body at compile time (C03's subject); here it is neutralised
+            fs = census.files(name)
+            fs["main.nano"] = fs["main.nano"].replace('shadow t {\n    (println "<<S")\n    (t)\n    (println ">>E")\n}', "shadow t { assert true }")
+            cells["census/" + name] = fs
         for name, files in load_cells().items():
             cells["c04/" + name] = files
         cell_names = sorted(cells)
@@ -1505,10 +1566,14 @@ def run(ctx):
                 if o.cls != "ok":
                     allok = False
                 if o.cls == "stuck":
+                    # a program of the generator's discipline is well formed: nothing that happens to it is explained by a
+                    # finding about ill-formed programs, so its key lives in a namespace of its own
+                    raw = o.key
+                    o.key = "wellformed|%s|%s|%s" % (o.stage, o.detail, tset(o.titles))
                     note_stuck(o, "generated program %d" % i)
                     files = dict(prog.files())
-                    if o.key not in ctx.open:
-                        small = _reduce_generated(plain, sc, prog, side, o.key, i)
+                    if o.key not in ctx.open and o.key not in ctx._vseen:
+                        small = _reduce_generated(plain, sc, prog, side, raw, i)
                         files.update({"reduced/" + k: t for k, t in small.items()})
                     report(ctx, o, "generated program %d (default switches, %s backend) is accepted and then stuck at '%s': %s" % (
                         i, side, o.stage, o.detail), files)
@@ -1560,6 +1625,7 @@ def run(ctx):
 
         vm_res = pmap(do_mut_vm, muts)
         accepted = []
+        stuck_reports = []
         pair_set = set()
         kinds_seen = {}
         n_rejected = 0
@@ -1579,7 +1645,7 @@ def run(ctx):
             pair_set.add((k0, "vm:" + v.label()))
             if v.cls == "stuck":
                 note_stuck(v, "mutant %d (%s)" % (mi, kind))
-                _report_mutant(ctx, plain, sc, v, "vm", mi, kind, mp, files)
+                stuck_reports.append((v, "vm", mi, kind, mp, files))
 
         # native side: a kind-balanced sample of the mutants the checker accepted
         by_kind = {}
@@ -1590,6 +1656,8 @@ def run(ctx):
         pools = [by_kind[k] for k in sorted(by_kind)]
         for p_ in pools:
             rr.shuffle(p_)
+            # silently accepted mutants first (a diagnosed mutant is already explained by its diagnostic)
+            p_.sort(key=lambda a: 0 if a[5].titles else 1 if a[5].cls == "stuck" else 2)
         while len(order) < nnative and any(pools):
             for p_ in pools:
                 if p_ and len(order) < nnative:
@@ -1617,7 +1685,19 @@ def run(ctx):
             pair_set.add((k0, "native:" + n.label()))
             if n.cls == "stuck":
                 note_stuck(n, "mutant %d (%s)" % (mi, kind))
-                _report_mutant(ctx, plain, sc, n, "native", mi, kind, mp, files)
+                stuck_reports.append((n, "native", mi, kind, mp, files))
+
+        # shrink the first mutant of every key that is not listed yet (in parallel), then report
+        todo, seen_new = [], set()
+        for rep in stuck_reports:
+            k = rep[0].key
+            if k not in ctx.open and k not in seen_new and len(todo) < SHRINK_MAX:
+                seen_new.add(k)
+                todo.append(rep)
+        shrunk = dict(pmap(lambda rep: (rep[2], _shrink_mutant(plain, sc, *rep)), todo))
+        for oc, side, mi, kind, mp, files in stuck_reports:
+            report(ctx, oc, "mutant %d (mutation: %s; %s backend): accepted by the type checker, then stuck at stage '%s': %s" % (
+                mi, kind, side, oc.stage, oc.detail), files, shrunk.pop(mi, None))
 
         # ---- evidence -----------------------------------------------------------------------------------------------------
         total = len(cell_names) + len(batch) + len(muts)
@@ -1680,6 +1760,9 @@ def _thin(d):
 
 
 _SHRUNK = [0]
+# development knobs (tools/c04_collect.py raises them to obtain a minimal witness for every new key)
+SHRINK_MAX = int(os.environ.get("NLV_C04_SHRINK_MAX", "6"))
+SHRINK_BUDGET = int(os.environ.get("NLV_C04_SHRINK_BUDGET", "50"))
 
 
 def _key_of(plain, d, files, side):
@@ -1693,22 +1776,17 @@ def _key_of(plain, d, files, side):
     return n.key
 
 
-def _report_mutant(ctx, plain, sc, oc, side, mi, kind, mp, files):
-    extra = {}
-    if oc.key not in ctx.open and oc.key not in ctx._vseen and _SHRUNK[0] < 6:
-        _SHRUNK[0] += 1
-        cnt = [0]
+def _shrink_mutant(plain, sc, oc, side, mi, kind, mp, files):
+    cnt = [0]
 
-        def same(c):
-            cnt[0] += 1
-            return _key_of(plain, sc.sub("shrink%d_%d" % (mi, cnt[0] % 4)), files_of(c), side) == oc.key
-        try:
-            small = shrink(mp, same, budget=50 if side == "vm" else 30)
-            extra = {"reduced/" + k: t for k, t in files_of(small).items()}
-        except Exception:
-            extra = {}
-    report(ctx, oc, "mutant %d (mutation: %s; %s backend): accepted by the type checker, then stuck at stage '%s': %s" % (
-        mi, kind, side, oc.stage, oc.detail), files, extra)
+    def same(c):
+        cnt[0] += 1
+        return _key_of(plain, sc.sub("shrink%d_%d" % (mi, cnt[0] % 4)), files_of(c), side) == oc.key
+    try:
+        small = shrink(mp, same, budget=SHRINK_BUDGET if side == "vm" else SHRINK_BUDGET * 2 // 3)
+        return {"reduced/" + k: t for k, t in files_of(small).items()}
+    except Exception:
+        return {}
 
 
 def _reduce_generated(plain, sc, prog, side, key, i):
